@@ -834,6 +834,21 @@ func (g *Gen) call(x *ssa.Call) {
 				return
 			}
 		} else {
+			// opt callbacks=pure: a call through a function-typed PARAMETER of the function under contract (a user
+			// callback) is ASSUMED to leave every location this function can see unchanged; its result is unknown
+			if pr := callbackParam(cc.Value); pr != nil && g.con != nil && g.con.Opts["callbacks"] == "pure" && len(g.inlineStack) == 0 {
+				g.noteAssumption("callback parameter " + pr.Name() + " of " + g.fnName() + " is assumed not to write memory visible to the function (opt callbacks=pure); its results are unconstrained")
+				if tup, ok := x.Type().(*types.Tuple); ok {
+					v := Val{T: tup}
+					for i := 0; i < tup.Len(); i++ {
+						v.C = append(v.C, g.freshVal("cb_"+pr.Name(), tup.At(i).Type(), nil).C...)
+					}
+					g.env[x] = &SV{V: v}
+				} else {
+					g.env[x] = &SV{V: g.freshVal("cb_"+pr.Name(), x.Type(), nil)}
+				}
+				return
+			}
 			name = "dynamic call through " + cc.Value.Name()
 		}
 		oos("call to %s which has no contract", shortKey(name))
@@ -845,6 +860,40 @@ func (g *Gen) call(x *ssa.Call) {
 	}
 	res := g.applyContract(con, names, args, x.Type(), shortKey(con.Key))
 	g.env[x] = &SV{V: res}
+}
+
+// callbackParam: v is a function-typed parameter of the enclosing function, or (un-lifted form) a load of the local
+// that holds it and is never re-assigned
+func callbackParam(v ssa.Value) *ssa.Parameter {
+	if pr, ok := v.(*ssa.Parameter); ok {
+		return pr
+	}
+	u, ok := v.(*ssa.UnOp)
+	if !ok || u.Op != token.MUL {
+		return nil
+	}
+	al, ok := u.X.(*ssa.Alloc)
+	if !ok || al.Referrers() == nil {
+		return nil
+	}
+	var pr *ssa.Parameter
+	for _, r := range *al.Referrers() {
+		switch r := r.(type) {
+		case *ssa.Store:
+			if r.Addr != ssa.Value(al) {
+				return nil
+			}
+			p, ok := r.Val.(*ssa.Parameter)
+			if !ok || pr != nil {
+				return nil
+			}
+			pr = p
+		case *ssa.UnOp, *ssa.DebugRef:
+		default:
+			return nil
+		}
+	}
+	return pr
 }
 
 // argVal evaluates a call argument. An interior address (&x.f, &a[i]) cannot be represented as a value; it is
